@@ -4,7 +4,9 @@
    A graph is a tree: a node carries its id, its inputs (None = missing optional input or a value
    without producer: graph input / initializer / outer value of a detached graph; Some p = value
    produced by node p, wherever p lives) and its attribute graphs in attribute order (GRAPH and
-   GRAPHS attributes flattened; other attributes and reference attributes contribute nothing),
+   GRAPHS attributes flattened; other attributes and reference attributes — including reference
+   attributes of GRAPH/GRAPHS type, which have no value (skipped by `attr.is_ref()` since 86f4e6a) —
+   contribute nothing),
    each with a graph id.  One subgraph object under two attributes cannot be expressed: it is
    outside the property's quantifier.
 
